@@ -594,6 +594,17 @@ def configs():
     C["licref-text-binary"] = (dict(lr_user, **{"LICENSES/LicenseRef-odd.txt": bytes(range(256)) * 4}), [], None)
     C["licref-text-empty"] = (dict(lr_user, **{"LICENSES/LicenseRef-odd.txt": b""}), [], None)
     C["license-text-latin1"] = ({"LICENSES/ISC.txt": "caf\xe9 ISC\n".encode("latin-1")}, [], None)
+    # a Git repository (configurations whose name begins with "git-": `git init` after the tree is written) with files the
+    # VCS ignores or does not know: whatever *bytes their names* are made of — the tool asks Git for the list of ignored
+    # paths and never looks at these files otherwise, so no command may end differently because of them
+    ign = {".gitignore": "*.ign\nbuild/\n"}
+    C["git-plain"] = (dict(ign, **{"x.ign": "x\n", "build/out.o": b"\x00"}), [], None)
+    C["git-ignored-name-not-utf8"] = (dict(ign, **{"caf\udce9.ign": "x\n"}), [], None)
+    C["git-ignored-name-latin1-and-utf8"] = (dict(ign, **{"r\udce9sum\udce9.ign": "x\n", "résumé.ign": "x\n"}), [], None)
+    C["git-ignored-dir-content-not-utf8"] = (dict(ign, **{"build/\udcff\udcfe/o\udc80.o": b"\x00"}), [], None)
+    C["git-ignored-dir-name-not-utf8"] = ({".gitignore": "b*/\n", "b\udce9ta/out.o": b"\x00"}, [], None)
+    C["git-ignored-name-control-characters"] = (dict(ign, **{"new\nline.ign": "x\n", "tab\there.ign": "x\n", 'q"uote\\.ign': "x\n"}), [], None)
+    C["git-ignored-name-long"] = (dict(ign, **{"n" * 250 + ".ign": "x\n"}), [], None)
     return C
 
 
@@ -637,7 +648,8 @@ class CliStream(Stream):
     exhaustive = True
     rule = ("%d project configurations (no / valid / syntactically broken / undecodable / NUL / 1 MB / 3000-deep / wrongly shaped / "
             "unparseable-expression REUSE.toml, nested REUSE.toml, the same for .reuse/dep5, dep5 + REUSE.toml conflicts, duplicate licence "
-            "files) x %d sub-commands of the real CLI (CliRunner) over a tree with Latin-1, NUL, binary and bad-expression files: "
+            "files, licence texts with arbitrary bytes, Git repositories with ignored files / directories whose names are not UTF-8, hold "
+            "control characters or are 250 bytes long) x %d sub-commands of the real CLI (CliRunner) over a tree with Latin-1, NUL, binary and bad-expression files: "
             "observed = loaded | exit:2 + configuration files named | traceback:<Class>, compared with the model's loadProject/clickEnd "
             "fed the generator's description of each file; oracle from the property text" % (len(configs()), len(COMMANDS)))
 
@@ -662,6 +674,9 @@ class CliStream(Stream):
             tree = dict(BASE_TREE)
             tree.update(files)
             cli.write_tree(root, tree)
+            if case["config"].startswith("git-"):
+                import subprocess
+                subprocess.run(["git", "init", "-q"], cwd=root, check=True, capture_output=True)
             code, out, exc = cli.run_cli(["--no-multiprocessing"] + COMMANDS[case["cmd"]], root)
             if exc is not None:
                 return "traceback:" + ("OSError" if isinstance(exc, OSError) else type(exc).__name__)
